@@ -2,6 +2,7 @@ package wire
 
 import (
 	"encoding/binary"
+	"encoding/json"
 	"fmt"
 	"net/netip"
 
@@ -21,15 +22,44 @@ type Reply struct {
 	QTTL    int               `json:"qttl"`     // 0: rewrite quoted TTL to 1 (what routers see); n>0: that value; -1: keep
 	QCsum   string            `json:"qcsum"`    // "" fix | "zero" | "keep"
 	QTOS    int               `json:"qtos"`     // 0 keep, else rewritten
-	Mods    map[string]int64  `json:"mods"`     // numeric perturbations (set value)
-	ModsD   map[string]int64  `json:"mods_d"`   // numeric perturbations (delta on the genuine value)
-	ModsS   map[string]string `json:"mods_s"`   // address perturbations
+	Mods    NumMap            `json:"mods"`     // numeric perturbations (set value)
+	ModsD   NumMap            `json:"mods_d"`   // numeric perturbations (delta on the genuine value)
+	ModsS   StrMap            `json:"mods_s"`   // address perturbations
 	Extra   []int             `json:"extra"`    // sack: further TTLs whose blocks are also reported
 	Desc    bool              `json:"desc"`     // sack: list blocks in descending order
 	Raw     string            `json:"raw"`      // form raw: hex bytes
 	Dup     int               `json:"dup"`      // extra copies
 	DupUs   int64             `json:"dup_us"`   // spacing of the copies
 	Tag     string            `json:"tag"`      // free label copied to the trace
+}
+
+// NumMap / StrMap accept the "[]" that TLC's Json module emits for an empty function.
+type NumMap map[string]int64
+type StrMap map[string]string
+
+func (m *NumMap) UnmarshalJSON(b []byte) error {
+	if len(b) > 0 && b[0] == '[' {
+		*m = NumMap{}
+		return nil
+	}
+	var x map[string]int64
+	if err := json.Unmarshal(b, &x); err != nil {
+		return err
+	}
+	*m = x
+	return nil
+}
+func (m *StrMap) UnmarshalJSON(b []byte) error {
+	if len(b) > 0 && b[0] == '[' {
+		*m = StrMap{}
+		return nil
+	}
+	var x map[string]string
+	if err := json.Unmarshal(b, &x); err != nil {
+		return err
+	}
+	*m = x
+	return nil
 }
 
 // Flow is what the wire knows about the run that emitted a probe.
